@@ -10,6 +10,7 @@ code -> model: every run is validated by TLC against JqSem.tla, where `=`/`|=`/o
                over path(p) with getpath/setpath/delpaths (spec/prelude_spec.jq), and the update forms are ALSO compared
                on the real binary with the explicit reduction text (two independent equalities).
 """
+import json
 import random
 
 import evalfam
@@ -42,6 +43,17 @@ def forms(p, r, f=None):
                             "[tostream]", "map_values(%s)" % f, "[tostream] == [path(def r: (.[]? | r), .; r) as $p | getpath($p) | reduce path(.[]?) as $q ([$p, .]; [$p + $q])]",
                             "to_entries == [keys[] as $k | {key: $k, value: .[$k]}]", "map_values(%s) == (.[] |= %s)" % (f, f)]), None),
     ]
+
+
+def probe_empty_location(rep, work, vh):
+    """Open finding F-C02-empty-array-location (exact witness): two empty arrays count as one location."""
+    w = next((k for k in rep.known if k["id"] == "F-C02-empty-array-location"), None)
+    if not w:
+        return
+    recs = evalfam.replay(work, vh, [{"id": 0, "src": w["witness"]["query"], "inputs": [jqgen.V(w["witness"]["input"])]}], tag="probe")
+    run = (recs[0].get("runs") or [{}])[0] if recs else {}
+    if run.get("err") is None and [jqgen.unV(x) for x in run.get("out", [])] == w["witness"]["got"]:
+        rep.known_finding(w["id"], "%r on %s returns %s instead of an invalid path error" % (w["witness"]["query"], json.dumps(w["witness"]["input"]), json.dumps(w["witness"]["got"])))
 
 
 def run(tier, seed, replay):
@@ -103,6 +115,7 @@ def run(tier, seed, replay):
                 add(src, r.sample(uni, 2), ref)
         counters = evalfam.check_cases(rep, work, vh, prelude, cases, timeout=900 if quick else 3000)
         rep.cov["verdicts"] = counters
+        probe_empty_location(rep, work, vh)
         # --- second equality, on the real code alone: update form == explicit defining reduction
         recs = {rec["id"]: rec for rec in evalfam.replay(work, vh, [cases[i] for pr in pairs for i in pr], tag="pairs")}
         npairs = 0
